@@ -130,6 +130,28 @@ def run_free(case):
                 evals += 1
                 if not (isinstance(have, Poly) and have == want):
                     fails.append(_fail("derivative(a)(y) == weight(a.y)", dict(inp0, prefix=list(pre), y=list(y)), have, want))
+    # options and composition with trim: derivative(a, i=k) for a non-default position tag k, and the
+    # trimmed (iterated) derivative, define the same weighted language
+    for pre in strings_upto(sorted(V, key=repr), 2):
+        if not pre:
+            continue
+        variants = [("derivatives(p)[-1].trim()", lambda: g.derivatives(pre)[-1].trim())]
+        if len(pre) == 1:
+            variants += [(f"derivative(a, i={k})", (lambda k=k: g.derivative(pre[0], i=k))) for k in (1, 3)]
+            variants += [("derivative(a, i=2).trim()", lambda: g.derivative(pre[0], i=2).trim())]
+        for vname, mk in variants:
+            Dg = _call(mk)
+            if isinstance(Dg, str):
+                fails.append(_fail("derivative:construct", dict(inp0, prefix=list(pre), variant=vname), Dg, "grammar"))
+                continue
+            drules = rules_of(Dg)
+            for y in strings_upto(sorted(V, key=repr), p["ylen"]):
+                want = table.get(pre + y, Poly.zero)
+                have = _call(ref_weight, drules, Dg.S, Dg.V, Poly, y)
+                evals += 1
+                if not (isinstance(have, Poly) and have == want):
+                    fails.append(_fail("derivative(p)(y) == weight(p.y) (options / trimmed; reference evaluation)", dict(inp0, prefix=list(pre), y=list(y), variant=vname), have, want))
+                    break
     return {"evals": evals, "nontrivial": int(nonzero > 0), "fails": fails, "counters": {"executions": evals, "nonzero_prefixes": nonzero}}
 
 
